@@ -450,7 +450,10 @@ Qed.
 Lemma pos_conn_inv cur ii rk fresh index oe s s' : pos_conn cur ii rk fresh index oe s = Ok s' -> Inv s ->
   Inv s' /\ length (st_defs s') = length (st_defs s).
 Proof.
-  unfold pos_conn. destruct oe as [e|]; [|discriminate]. intros H I.
+  unfold pos_conn. destruct oe as [e|].
+  2:{ destruct fresh; intros H I; inversion H; subst; [|split; [exact I|reflexivity]].
+      split; [apply put_def_inv; [exact I|apply add_unnamed_port_dstep; apply new_bundle_wfb]|apply put_def_length]. }
+  intros H I.
   apply bind_ok in H. destruct H as ([d1 ws] & H1 & H).
   set (s1 := put_def cur d1 s) in *.
   assert (I1 : Inv s1) by (apply put_def_inv; [exact I|eapply expr_wires_dstep; exact H1]).
